@@ -27,6 +27,7 @@ Lexical choices (`lex`, every key optional, default = what CANdb++ writes):
              and BO_TX_BU_ lists every sender
 """
 import random
+import re
 
 import netdesc
 from netdesc import render_number, plain
@@ -45,6 +46,9 @@ for _k in ORDERS:
 NS_LIST = ["NS_DESC_", "CM_", "BA_DEF_", "BA_", "VAL_", "CAT_DEF_", "CAT_", "FILTER", "BA_DEF_DEF_", "EV_DATA_", "ENVVAR_DATA_", "SGTYPE_",
            "SGTYPE_VAL_", "BA_DEF_SGTYPE_", "BA_SGTYPE_", "SIG_TYPE_REF_", "VAL_TABLE_", "SIG_GROUP_", "SIG_VALTYPE_", "SIGTYPE_VALTYPE_",
            "BO_TX_BU_", "BA_DEF_REL_", "BA_REL_", "BA_DEF_DEF_REL_", "BU_SG_REL_", "BU_EV_REL_", "BU_BO_REL_", "SG_MUL_VAL_"]
+
+
+CM_OPEN, CM_CLOSE = "\ue000", "\ue001"      # private-use markers around comment text, removed when the bytes are produced
 
 
 class NoTrail(str):
@@ -92,6 +96,8 @@ def render(desc, lex=None, encoding="iso-8859-1"):
     lx = dict(CANON)
     lx.update(lex or {})
     orng = random.Random(lx.get("order_seed", 0))
+    enc_stmt, _, enc_comment = encoding.partition("+cm=")
+    enc_comment = enc_comment or enc_stmt
 
     def sp(kw):
         return " " * lx["sp." + kw]
@@ -201,13 +207,13 @@ def render(desc, lex=None, encoding="iso-8859-1"):
     cms = []
     for e in desc["ecus"]:
         if e.get("comment"):
-            cms.append("CM_" + s + "BU_" + s + esym[e["name"]] + s + '"' + e["comment"] + '"' + semi)
+            cms.append("CM_" + s + "BU_" + s + esym[e["name"]] + s + '"' + CM_OPEN + e["comment"] + CM_CLOSE + '"' + semi)
     for fr in desc["frames"]:
         if fr.get("comment") is not None:
-            cms.append("CM_" + s + "BO_" + s + str(can_id(fr)) + s + '"' + fr["comment"] + '"' + semi)
+            cms.append("CM_" + s + "BO_" + s + str(can_id(fr)) + s + '"' + CM_OPEN + fr["comment"] + CM_CLOSE + '"' + semi)
         for sg in fr["signals"]:
             if sg.get("comment") is not None:
-                cms.append("CM_" + s + "SG_" + s + str(can_id(fr)) + s + ssym[fr["name"]][sg["name"]] + s + '"' + sg["comment"] + '"' + semi)
+                cms.append("CM_" + s + "SG_" + s + str(can_id(fr)) + s + ssym[fr["name"]][sg["name"]] + s + '"' + CM_OPEN + sg["comment"] + CM_CLOSE + '"' + semi)
     ls = []
     for c in order("CM_", cms):
         parts = c.split("\n")
@@ -322,13 +328,27 @@ def render(desc, lex=None, encoding="iso-8859-1"):
     eol = lx["eol"]
     trail = " " if lx["trail"] else ""
     text = "".join(l + (trail if (l and not isinstance(l, NoTrail)) else "") + eol for l in out)
-    return text.encode(encoding)
+    # comment strings may be in a charset of their own (reader option dbcImportCommentEncoding): encode piecewise
+    out_b, cur = [], enc_stmt
+    for part in re.split("([%s%s])" % (CM_OPEN, CM_CLOSE), text):
+        if part == CM_OPEN:
+            cur = enc_comment
+        elif part == CM_CLOSE:
+            cur = enc_stmt
+        else:
+            out_b.append(part.encode(cur))
+    return b"".join(out_b)
 
 
-ENCODINGS = ["iso-8859-1", "utf-8"]
+# "<statement charset>" or "<statement charset>+cm=<comment charset>": every reader option that selects a charset is varied on its
+# own.  The statement charset of a mixed file is a total single-byte one (the reader decodes whole lines with it to find the statements).
+ENCODINGS = ["iso-8859-1", "utf-8", "iso-8859-1+cm=utf-8", "iso-8859-1+cm=cp1252", "cp1252", "cp1252+cm=iso-8859-1"]
 
 
 def render_with_opts(desc, lex, encoding):
     """bytes + the reader options that announce the encoding (dbcImportEncoding; default iso-8859-1)"""
-    opts = {} if encoding == "iso-8859-1" else {"dbcImportEncoding": encoding}
+    stmt, _, cm = encoding.partition("+cm=")
+    opts = {} if stmt == "iso-8859-1" else {"dbcImportEncoding": stmt}
+    if cm:
+        opts["dbcImportCommentEncoding"] = cm
     return render(desc, lex, encoding), opts
